@@ -1,7 +1,8 @@
 (* C14 - spelling, spacing, comments and separators do not change the program.
    Only statements, [exact], Print Assumptions.  Model: Models/Lex.v (a lossless
    lexer for QBASIC text as qbee cuts it, and the canonical respelling [canon]).
-   Proofs: Proofs/LexChars.v LexSpan.v LexTok.v LexTokSpec.v LexLayout.v LexProofs.v.
+   Proofs: Proofs/LexChars.v LexSpan.v LexTok.v LexTokSpec.v LexLayout.v LexProofs.v
+   LexIdem.v.
 
    What is proved: [canon] does not change under any rewriting of the catalogue
    (letter case of a keyword/identifier, blanks and tabs between tokens, comments
@@ -18,7 +19,7 @@
    literals (1E5, &HFF).  That the pyparsing grammar factors through these
    tokens is not a theorem either; it is what the correspondence tests. *)
 From Coq Require Import ZArith List Bool.
-From QV Require Import Sx Strs Lex LexLayout LexProofs.
+From QV Require Import Sx Strs Lex LexLayout LexProofs LexIdem.
 Import ListNotations.
 Open Scope Z_scope.
 
@@ -68,6 +69,12 @@ Print Assumptions C14_canon_invariant_relop.
 Theorem C14_canon_invariant_star : forall s s', rewrites s s' -> canon s' = canon s.
 Proof. exact canon_invariant_star. Qed.
 Print Assumptions C14_canon_invariant_star.
+
+(* the canonical text is a fixed point: canon is a projection onto one
+   representative of every class of respellings *)
+Theorem C14_canon_idempotent : forall s, canon (canon s) = canon s.
+Proof. exact canon_idempotent. Qed.
+Print Assumptions C14_canon_idempotent.
 
 (* ---- non-vacuity on a small program:   IF a><1 THEN x=2 'c  ---- *)
 
